@@ -30,9 +30,10 @@ def main():
                                capture_output=True, text=True)
             out = p.stdout + p.stderr
             clauses = sorted(set(re.findall(r"violation-summary clause=(\S+) mech=None", out)))
+            counts = {c: int(n) for c, n in re.findall(r"violation-summary clause=(\S+) mech=\S+ route=\S* n=(\d+)", out)}
             summary = [ln for ln in out.split("\n") if ln.startswith("[")]
             sd = os.environ.get("VERIF_SEED")
-            det[f"{t}:{tier}" + (f":seed{sd}" if sd else "")] = {"exit": p.returncode, "violated_clauses": clauses,
+            det[f"{t}:{tier}" + (f":seed{sd}" if sd else "")] = {"exit": p.returncode, "violated_clauses": clauses, "violations_per_clause": counts,
                                   "summary": summary[-1] if summary else out[-200:]}
             print(sid, t, tier, "exit", p.returncode, clauses, flush=True)
         meta["detection"] = det
